@@ -7,6 +7,7 @@ package main
 //   D  thrift_reflection.GetFileDescriptor + meta.Marshal: 8 calls; every distinct byte string is a case, the
 //      model sorts the entries as the code does (so a second byte string for one descriptor disagrees with it)
 //   V  meta.Marshal of a ConstValueDescriptor map (pointer keys, equal contents allowed): (key, value) order
+//   T  golang.(*CodeUtils).BuildFuncMap()["ServiceThrows"] on scopes built from same-named exceptions of several packages
 //   N  pkg/namespace: Add in a given order, then Iterate / Get
 //
 // Map iteration order is re-randomised at every `range`, so repeating a call inside one process
@@ -15,15 +16,19 @@ package main
 import (
 	"encoding/binary"
 	"fmt"
+	"os"
+	"path/filepath"
 	"sort"
 	"strings"
 
 	"github.com/cloudwego/thriftgo/generator"
 	"github.com/cloudwego/thriftgo/generator/backend"
+	"github.com/cloudwego/thriftgo/generator/golang"
 	"github.com/cloudwego/thriftgo/generator/golang/extension/meta"
 	"github.com/cloudwego/thriftgo/parser"
 	"github.com/cloudwego/thriftgo/pkg/namespace"
 	"github.com/cloudwego/thriftgo/plugin"
+	"github.com/cloudwego/thriftgo/semantic"
 	"github.com/cloudwego/thriftgo/thrift_reflection"
 
 	"verifharness/internal/vl"
@@ -326,6 +331,126 @@ func corrConstMap(r *vl.Rng, out *vl.Out, n int) {
 	}
 	out.Stats["V:maps_with_keys_of_equal_content"] = dupCases
 	out.Stats["V:of_those_marshalled_to_2+_byte_strings_within_8_calls"] = dupMulti
+}
+
+// sameNameProg: nInc include files that all define the same names (exceptions Rejected/Timeout, struct
+// Shared, enum Kind, typedef Alias, consts, service Common) in different Go packages — pairs of them even
+// in packages with the same last path element — and a main file that uses them side by side.
+func sameNameProg(r *vl.Rng, idx, nInc int) Prog {
+	var p Prog
+	main := IDLFile{Name: fmt.Sprintf("main%d.thrift", idx)}
+	var throwsAll, fields, names []string
+	for i := 0; i < nInc; i++ {
+		base := fmt.Sprintf("inc%d_%d", idx, i)
+		p.Files = append(p.Files, IDLFile{Name: base + ".thrift", Lines: []string{
+			fmt.Sprintf("namespace go p%d.g%d.shared%d", idx, i/2, i%2),
+			"enum Kind { A = 1, B = 2 }",
+			"struct Shared { 1: string a, 2: Kind k }",
+			"exception Rejected { 1: string msg }",
+			"exception Timeout { 1: i32 ms }",
+			"typedef map<string,Shared> Alias",
+			fmt.Sprintf(`const string NAME = "n%d"`, i),
+			`const map<string,i32> LIMITS = {"a": 1, "b": 2}`,
+			"service Common { Shared get(1: string k) throws (1: Rejected r, 2: Timeout t) }",
+		}})
+		main.Lines = append(main.Lines, fmt.Sprintf(`include "%s.thrift"`, base))
+		throwsAll = append(throwsAll, base+".Rejected", base+".Timeout") // interleaved: every rotation of the bucket shows
+		fields = append(fields, fmt.Sprintf("%d: %s.Shared s%d, %d: %s.Kind k%d, %d: %s.Alias a%d", 3*i+1, base, i, 3*i+2, base, i, 3*i+3, base, i))
+		names = append(names, base+".NAME")
+	}
+	main.Lines = append(main.Lines, fmt.Sprintf("namespace go p%d.main", idx), "exception Rejected { 1: string why }",
+		fmt.Sprintf("struct Shared { %s }", strings.Join(fields, ", ")),
+		fmt.Sprintf("const list<string> NAMES = [%s]", strings.Join(names, ", ")))
+	thr := func(ts []string) string {
+		var parts []string
+		for i, t := range ts {
+			parts = append(parts, fmt.Sprintf("%d: %s e%d", i+1, t, i+1))
+		}
+		return strings.Join(parts, ", ")
+	}
+	rot := r.Intn(len(throwsAll))
+	sub := append(append([]string(nil), throwsAll[rot:]...), throwsAll[:rot]...)
+	main.Lines = append(main.Lines,
+		fmt.Sprintf("service Orders extends inc%d_0.Common { Shared place(1: inc%d_%d.Shared s) throws (%s), void cancel(1: i64 id) throws (%s) }",
+			idx, idx, nInc-1, thr(throwsAll), thr([]string{"Rejected", fmt.Sprintf("inc%d_%d.Rejected", idx, nInc-1)})),
+		fmt.Sprintf("service Audit extends inc%d_%d.Common { inc%d_0.Shared last() throws (%s) }", idx, nInc-1, idx, thr(sub[:2+r.Intn(len(sub)-1)])))
+	p.Files = append([]IDLFile{main}, p.Files...)
+	return p
+}
+
+// corrServiceThrows: the template function ServiceThrows of the real BuildFuncMap on services that throw
+// same-named exceptions of different packages; 16 calls per service, every distinct result is a case,
+// the model sorts the Go type names.
+func corrServiceThrows(r *vl.Rng, out *vl.Out, dir string, n int) {
+	for c := 0; c < n; c++ {
+		p := sameNameProg(r, c, 2+r.Intn(3))
+		idl, err := writeProg(filepath.Join(dir, fmt.Sprintf("st%d", c)), p)
+		if err != nil {
+			panic(err)
+		}
+		func() {
+			defer func() {
+				if e := recover(); e != nil {
+					out.Case("T", fmt.Sprintf("panic:%v", e), true)
+				}
+			}()
+			ast, err := parser.ParseFile(idl, nil, true)
+			if err == nil {
+				_, err = semantic.NewChecker(semantic.Options{FixWarnings: true}).CheckAll(ast)
+			}
+			if err == nil {
+				err = semantic.ResolveSymbols(ast)
+			}
+			if err != nil {
+				out.Case("T", "err:front", true)
+				return
+			}
+			cu := golang.NewCodeUtils(backend.DummyLogFunc())
+			scope, err := golang.BuildScope(cu, ast)
+			if err != nil {
+				out.Case("T", "err:scope", true)
+				return
+			}
+			cu.SetRootScope(scope)
+			fn, ok := cu.BuildFuncMap()["ServiceThrows"].(func(*golang.Service) []*golang.Field)
+			if !ok {
+				out.Case("T", "err:signature", true)
+				return
+			}
+			for _, svc := range scope.Services() {
+				seen := map[string]bool{}
+				var op string
+				for t := 0; t < 16; t++ {
+					var names []string
+					for _, f := range fn(svc) {
+						names = append(names, vl.Hex(f.GoTypeName().String()))
+					}
+					res := strings.Join(append([]string{"ok"}, names...), " ")
+					if op == "" {
+						op = strings.Join(append([]string{"T"}, names...), " ")
+					}
+					if !seen[res] {
+						seen[res] = true
+						out.Case(op, res, len(names) >= 2)
+					}
+				}
+				out.Count(fmt.Sprintf("T:throws=%d", min(len(strings.Fields(op))-1, 9)))
+				if len(seen) > 1 {
+					var obs []string
+					for k := range seen {
+						obs = append(obs, k)
+					}
+					sort.Strings(obs)
+					out.Fail(vl.OracleFail{Key: "nondeterministic:in-process:ServiceThrows", What: "the template function ServiceThrows returns the exceptions of one service in different orders",
+						Input: map[string]interface{}{"idl": p.Text(), "main": p.Files[0].Name, "service": string(svc.GoName())}, Expected: "one order", Observed: obs})
+				}
+			}
+			if c < 1 {
+				out.Sample(map[string]interface{}{"suite": "T", "main": p.Files[0].Lines})
+			}
+		}()
+		os.RemoveAll(filepath.Join(dir, fmt.Sprintf("st%d", c)))
+	}
 }
 
 func nsRun(style int, es [][2]string) (string, bool) {
